@@ -201,3 +201,53 @@ package netceptor
 //@   show BASE: uf("T", "int", 0) <= 0
 //@   show STEP: uf("T", "int", k+1) <= k+1
 //@   trust induction schema over the hop budget; H0/HS restate forwardMessage#ensures:COUNT/WIRE (at most fwdcount(h) own sends, each with budget fwdttl(h))
+
+// ---- backend protocol loop (C07 C11)
+
+//@ immutable Netceptor.nodeID, Netceptor.Logger, Netceptor.hashLock, Netceptor.connLock, Netceptor.routingTableLock, Netceptor.listenerLock, Netceptor.firewallLock
+//@ immutable Netceptor.knownNodeLock, Netceptor.seenUpdatesLock, Netceptor.sequenceLock, Netceptor.serviceAdsLock, Netceptor.workCommandsLock
+//@ immutable Netceptor.sendRouteFloodChan, Netceptor.updateRoutingTableChan, Netceptor.sendServiceAdsChan, Netceptor.context, Netceptor.epoch
+//@ immutable connInfo.ReadChan, connInfo.WriteChan, connInfo.Context, connInfo.CancelFunc, connInfo.lastReceivedLock, connInfo.logger
+//@ immutable BackendInfo.connectionCost, BackendInfo.nodeCost, BackendInfo.allowedPeers
+//@ immutable PacketConn.recvChan, PacketConn.s, PacketConn.localService
+
+//@ monitor (s *Netceptor) knownNodeLock
+//@   protects knownNodeInfo, knownConnectionCosts
+//@   inv KCC: s.knownConnectionCosts != nil && s.knownNodeInfo != nil && forall k string :: (k in s.knownConnectionCosts) ==> s.knownConnectionCosts[k] != nil
+
+//@ func (*Netceptor).removeConnection
+//@   tags C07 C11
+//@   safety
+//@   requires s != nil
+
+//@ func (*Netceptor).sendAndLogConnectionRejection
+//@   tags C07
+//@   requires s != nil && ci != nil
+
+//@ func (*Netceptor).handleRoutingUpdate
+//@   tags C06 C07
+//@   requires s != nil && ri != nil
+
+//@ func (*Netceptor).handleServiceAdvertisement
+//@   tags C07 C18
+//@   requires s != nil
+
+//@ func (*Netceptor).runProtocol
+//@   tags C07 C11
+//@   safety
+//@   requires NONNIL: s != nil && sess != nil && bi != nil && ctx != nil
+//@   ghostflag inserted set mapupdate:Netceptor.connections clear call:removeConnection
+//@   loop for
+//@     invariant CI: ci != nil && ci.Context != nil && ci.ReadChan != nil && initDoneChan != nil
+//@     invariant EST: [C11] flag("inserted") == established
+//@     invariant ID: [C11] established ==> remoteNodeID != "" && remoteNodeID != s.nodeID
+//@   loop range s.connections
+//@     invariant SEEN: [C11] remoteNodeAccepted ==> forall k string :: visited(k) ==> k != remoteNodeID
+//@     invariant NOTYET: [C11] !flag("inserted")
+//@   loop range bi.allowedPeers
+//@     invariant NOTACC: [C11] !remoteNodeAccepted && !flag("inserted")
+//@   site mapupdate Netceptor.connections ADMIT: [C11] requires key != "" && key != s.nodeID && !(key in s.connections) && value == ci
+//@        && (bi.allowedPeers == nil || exists i int :: 0 <= i && i < len(bi.allowedPeers) && bi.allowedPeers[i] == key)
+//@        && ci.Cost == ((key in bi.nodeCost) ? bi.nodeCost[key] : bi.connectionCost)
+//@   site call removeConnection WHO: [C11] requires arg1 == remoteNodeID
+//@   ensures FORGOTTEN: [C11] !flag("inserted")
